@@ -370,6 +370,11 @@ class Ctx:
         os.makedirs(ev_dir, exist_ok=True)
         rp_dir = os.path.join(VERIF, 'replay', self.prop)
         os.makedirs(rp_dir, exist_ok=True)
+        for old in ([] if getattr(self, 'replay_cases', None) is not None else glob.glob(os.path.join(rp_dir, self.tier + '-*'))):   # stale files of earlier runs
+            try:
+                os.remove(old)
+            except OSError:
+                pass
         lines = []
         rc = 0
         seen_known = set()
